@@ -186,7 +186,8 @@ Definition cli_invoke (i : inv) : ires :=
 Definition ctl_req (c : command) : Z * Z * Z * Z :=
   (o_kind (c_target c), if o_kind (c_target c) =? 1 then c_ns c else -1, o_name (c_target c), c_action c).
 
-(* end to end: every Command left behind is executed once (C20_at_most_once per Command) *)
+(* end to end, BY DEFINITION: the requests of the Commands left behind (that each of them is
+   executed at most once is C20_at_most_once; that it IS executed is only observed) *)
 Definition e2e_requests (invs : list inv) : list (Z * Z * Z * Z) :=
   flat_map (fun i => map ctl_req (r_new (cli_invoke i))) invs.
 
